@@ -19,6 +19,12 @@ func main() {
 	txs := fs.Int("txs", 5, "txs per block")
 	trace := fs.String("trace", "", "trace file")
 	driver := fs.String("driver", "", "lean driver binary")
+	profile := fs.String("profile", "mixed", "generator profile")
+	n := fs.Int("n", 8, "number of histories")
+	tier := fs.String("tier", "quick", "tier")
+	keep := fs.String("keep", "/verif/replays", "dir for failing traces")
+	par := fs.Int("par", 8, "parallel histories")
+	out := fs.String("out", "-", "result json")
 	fs.Parse(os.Args[2:])
 	switch mode {
 	case "trace":
@@ -42,6 +48,9 @@ func main() {
 			fmt.Printf("%s=%d\n", k, h.Stats[k])
 		}
 		fmt.Println("ops", h.Ops, "lines", sink.NLines, "panics", h.Panics, "fails", sink.Fails)
+	case "campaign":
+		res := Campaign(*profile, *seed, *n, *tier, *driver, *keep, *par)
+		writeJSON(*out, res)
 	default:
 		fmt.Println("unknown mode", mode)
 		os.Exit(2)
